@@ -24,38 +24,47 @@ Proof.
   apply find_id_some in E. destruct E as [He Hk]. exfalso. exact (H e He Hk).
 Qed.
 
+Lemma a_index_cons_eq : forall x r i, a_index (kv x :: r) (key x) i = Some i.
+Proof. intros. cbn [a_index]. unfold keyf. destruct (kvf h x) as [kx vx]. cbn [fst]. rewrite Z.eqb_refl. reflexivity. Qed.
+Lemma a_index_cons_neq : forall x r k i, key x <> k -> a_index (kv x :: r) k i = a_index r k (S i).
+Proof. intros x r k i H. cbn [a_index]. unfold keyf in H. destruct (kvf h x) as [kx vx]. cbn [fst] in H. apply Z.eqb_neq in H. rewrite H. reflexivity. Qed.
+Lemma a_remove_cons_eq : forall x r, a_remove (kv x :: r) (key x) = r.
+Proof. intros. cbn [a_remove]. unfold keyf. destruct (kvf h x) as [kx vx]. cbn [fst]. rewrite Z.eqb_refl. reflexivity. Qed.
+Lemma a_remove_cons_neq : forall x r k, key x <> k -> a_remove (kv x :: r) k = kv x :: a_remove r k.
+Proof. intros x r k H. cbn [a_remove]. unfold keyf in H. destruct (kvf h x) as [kx vx]. cbn [fst] in H. apply Z.eqb_neq in H. rewrite H. reflexivity. Qed.
+Lemma a_set_cons_eq : forall x r v, a_set (kv x :: r) (key x) v = (key x, v) :: r.
+Proof. intros. cbn [a_set]. unfold keyf. destruct (kvf h x) as [kx vx]. cbn [fst]. rewrite Z.eqb_refl. reflexivity. Qed.
+Lemma a_set_cons_neq : forall x r k v, key x <> k -> a_set (kv x :: r) k v = kv x :: a_set r k v.
+Proof. intros x r k v H. cbn [a_set]. unfold keyf in H. destruct (kvf h x) as [kx vx]. cbn [fst] in H. apply Z.eqb_neq in H. rewrite H. reflexivity. Qed.
+
 Lemma a_index_map_split : forall l1 e l2 i, (forall y, In y l1 -> key y <> key e) ->
   a_index (map kv (l1 ++ e :: l2)) (key e) i = Some (i + length l1).
 Proof.
   induction l1 as [|x l1 IH]; intros e l2 i Hn.
-  - cbn [app map a_index length]. unfold keyf. destruct (kvf h e) as [ke ve]. cbn [fst]. rewrite Z.eqb_refl. f_equal. lia.
-  - cbn [app map a_index length]. assert (Hx : key x <> key e) by (apply Hn; left; reflexivity).
-    unfold keyf in Hx |- *. destruct (kvf h x) as [kx vx] eqn:Ex. cbn [fst] in *.
-    apply Z.eqb_neq in Hx. rewrite Hx. fold (keyf h e). rewrite IH by (intros y Hy; apply Hn; right; exact Hy). f_equal. lia.
+  - cbn [app map length]. rewrite a_index_cons_eq. f_equal. lia.
+  - cbn [app map length]. rewrite a_index_cons_neq by (apply Hn; left; reflexivity).
+    rewrite IH by (intros y Hy; apply Hn; right; exact Hy). f_equal. lia.
 Qed.
 
 Lemma a_index_map_none : forall l k i, (forall e, In e l -> key e <> k) -> a_index (map kv l) k i = None.
 Proof.
-  induction l as [|x l IH]; intros k i H; [reflexivity|]. cbn [map a_index].
-  assert (Hx : key x <> k) by (apply H; left; reflexivity). unfold keyf in Hx. destruct (kvf h x) as [kx vx]. cbn [fst] in *.
-  apply Z.eqb_neq in Hx. rewrite Hx. apply IH. intros e He. apply H. right; exact He.
+  induction l as [|x l IH]; intros k i H; [reflexivity|]. cbn [map].
+  rewrite a_index_cons_neq by (apply H; left; reflexivity). apply IH. intros e He. apply H. right; exact He.
 Qed.
 
 Lemma a_remove_map_split : forall l1 e l2, (forall y, In y l1 -> key y <> key e) ->
   a_remove (map kv (l1 ++ e :: l2)) (key e) = map kv (l1 ++ l2).
 Proof.
   induction l1 as [|x l1 IH]; intros e l2 Hn.
-  - cbn [app map a_remove]. unfold keyf. destruct (kvf h e) as [ke ve]. cbn [fst]. rewrite Z.eqb_refl. reflexivity.
-  - cbn [app map a_remove]. assert (Hx : key x <> key e) by (apply Hn; left; reflexivity).
-    unfold keyf in Hx. destruct (kvf h x) as [kx vx] eqn:Ex. cbn [fst] in *. apply Z.eqb_neq in Hx. rewrite Hx.
+  - cbn [app map]. apply a_remove_cons_eq.
+  - cbn [app map]. rewrite a_remove_cons_neq by (apply Hn; left; reflexivity).
     f_equal. apply IH. intros y Hy. apply Hn. right; exact Hy.
 Qed.
 
 Lemma a_remove_map_none : forall l k, (forall e, In e l -> key e <> k) -> a_remove (map kv l) k = map kv l.
 Proof.
-  induction l as [|x l IH]; intros k H; [reflexivity|]. cbn [map a_remove].
-  assert (Hx : key x <> k) by (apply H; left; reflexivity). unfold keyf in Hx. destruct (kvf h x) as [kx vx]. cbn [fst] in *.
-  apply Z.eqb_neq in Hx. rewrite Hx. f_equal. apply IH. intros e He. apply H. right; exact He.
+  induction l as [|x l IH]; intros k H; [reflexivity|]. cbn [map].
+  rewrite a_remove_cons_neq by (apply H; left; reflexivity). f_equal. apply IH. intros e He. apply H. right; exact He.
 Qed.
 
 Lemma a_insert_at_map : forall l i x, a_insert_at (map kv l) i (kv x) = map kv (firstn i l ++ x :: skipn i l).
@@ -89,8 +98,7 @@ Lemma a_set_map_split : forall h l1 e l2 v, (forall y, In y l1 -> keyf h y <> ke
   a_set (map (kvf h) (l1 ++ e :: l2)) (keyf h e) v = map (kvf h) l1 ++ (keyf h e, v) :: map (kvf h) l2.
 Proof.
   intros h. induction l1 as [|x l1 IH]; intros e l2 v Hn.
-  - cbn [app map a_set]. unfold keyf. destruct (kvf h e) as [ke ve]. cbn [fst]. rewrite Z.eqb_refl. reflexivity.
-  - cbn [app map a_set]. assert (Hx : keyf h x <> keyf h e) by (apply Hn; left; reflexivity).
-    unfold keyf in Hx. destruct (kvf h x) as [kx vx] eqn:Ex. cbn [fst] in *. apply Z.eqb_neq in Hx. rewrite Hx.
+  - cbn [app map]. apply a_set_cons_eq.
+  - cbn [app map]. rewrite a_set_cons_neq by (apply Hn; left; reflexivity).
     f_equal. apply IH. intros y Hy. apply Hn. right; exact Hy.
 Qed.
